@@ -4,6 +4,7 @@ import (
 	"fmt"
 	"go/token"
 	"go/types"
+	"os"
 	"sort"
 	"strings"
 
@@ -202,6 +203,9 @@ func (w *World) cursorStoreForward(st *ssa.Store) (bool, string) {
 		}
 	}
 	c, ok := w.cursorStores[w.pos(st.Pos())]
+	if os.Getenv("VERIF_C13_DEBUG") != "" {
+		fmt.Printf("C13DEBUG store %s: %v %v; known %v\n", w.pos(st.Pos()), c, ok, w.cursorStores)
+	}
 	switch {
 	case !ok || c[0] == 0:
 		return false, "the interpretation of the lexer did not reach it"
